@@ -60,7 +60,7 @@ CLAIMS.update({
 })
 CLAIMS.update({
     "C12": {
-        "text": "Theorems over ALL spellings of the list and directive syntax: ows_and_empty_elements (arbitrary OWS / empty elements), lines_are_one_list + field_lines_combined (any split into field lines), name_case_irrelevant, quoted_argument (token vs quoted-string for delta-seconds), order_irrelevant and extensions_irrelevant (lookups independent of order and of unknown directives, for distinct names), delta_seconds_large (no wrap-around: at least min(value, 2^31) s for every digit string). PARTIAL: the single composed parse(render) statement is not assembled and elements with quoted-pairs are covered by the metamorphic check only: canonical/respelled history pairs must be observationally identical on the real transport and agree with the model.",
+        "text": "Theorems over ALL spellings of the list and directive syntax: ows_and_empty_elements (arbitrary OWS / empty elements), lines_are_one_list + field_lines_combined (any split into field lines), name_case_irrelevant, quoted_argument (token vs quoted-string for delta-seconds), order_irrelevant and extensions_irrelevant (lookups independent of order and of unknown directives, for distinct names), delta_seconds_large (no wrap-around: at least min(value, 2^31) s for every digit string), min_fresh_is_honoured / huge_min_fresh_never_wraps (the use of a request min-fresh does not wrap either: a usable hit has at least the demanded freshness left; monitor clause monHugeMinFresh on the real transport). PARTIAL: the single composed parse(render) statement is not assembled and elements with quoted-pairs are covered by the metamorphic check only: canonical/respelled history pairs must be observationally identical on the real transport and agree with the model.",
         "note": TB,
     },
 })
